@@ -19,7 +19,7 @@ spy(CFG, "_raise_if_older_schema")
 spy(MIG, "apply_migrations")
 CODE = ["signac.project.Project._check_schema_compatibility / __init__ / get_project / init_project", "signac._config._raise_if_older_schema / _locate_config_dir / _load_config", "signac.migration.apply_migrations / _collect_migrations / _get_config_schema_version",
         "signac.migration.v0_to_v1 / v1_to_v2"]
-BOUNDS = {"gate": "direct z3 query generated from the AST of Project._check_schema_compatibility: ALL integers; executed under CrossHair for v in [-8, 16] and as a decimal string for v in [-20, 40] (quick) / |v| <= 1000 (thorough)", "refuse": "v2 layout with schema_version in {0,1,3,10} and legacy signac.rc layout with version {absent,0,1,3,10} x {Project(), get_project, init_project}, "
+BOUNDS = {"gate": "direct z3 query generated from the AST of Project._check_schema_compatibility: ALL integers; executed under CrossHair for v in [-8, 16] and as a decimal string for v in [-20, 40] (quick) / |v| <= 1000 (thorough)", "refuse": "v2 layout with schema_version in {0,1,3,10} and legacy signac.rc layout with version {absent,0,1,2,3,10} x {Project(), get_project, init_project}, "
           "with a workspace holding a job, a project document and a cache file", "migrate": "project name {None, proj, 'my proj-1.0!'} x workspace_dir {default, ws, a/ws, custom + colliding 'workspace'} x v1 cache file x shell history x 0-2 jobs with document/file x start version {absent, 0, 1}"}
 OUTSIDE = ["non-ASCII project names", "concurrent migrations (the file lock is not modelled)", "crashes in the middle of a migration"]
 STUBS = ["gate harness: a Project object carrying only a config mapping"]
@@ -245,7 +245,9 @@ def _refuse_case(layout, ver, entry):
         except IncompatibleSchemaVersion:
             pass
         except Exception as e:  # noqa
-            problems.append(("expected IncompatibleSchemaVersion, got", type(e).__name__, str(e)[:80]))
+            # a LEGACY layout that claims the CURRENT version is contradictory: any refusal is accepted as long as nothing is opened or modified
+            if not (layout == 1 and ver == 2):
+                problems.append(("expected IncompatibleSchemaVersion, got", type(e).__name__, str(e)[:80]))
         if SL.snap(root) != before:
             a = SL.snap(root)
             problems.append(("refused project was modified", sorted(set(a) ^ set(before))[:4]))
@@ -253,10 +255,10 @@ def _refuse_case(layout, ver, entry):
 
 
 def h_refuse(layout: int, ver: int, entry: int):
-    assert 0 <= layout <= 1 and 0 <= ver <= 4 and 0 <= entry <= 3 and not (layout == 0 and ver == 4)
+    assert 0 <= layout <= 1 and 0 <= ver <= 5 and 0 <= entry <= 3 and not (layout == 0 and ver in (4, 5))
     fresh_path()
     layout, entry = ci(layout, 0, 1), ci(entry, 0, 3)
-    v = pick([0, 1, 3, 10, None], ver)
+    v = pick([0, 1, 3, 10, None, 2], ver)
     with nt():
         problems = _refuse_case(layout, v, entry)
     reached()
